@@ -64,6 +64,7 @@ type Violation struct {
 	Sched   []string
 	Pos     string
 	Known   bool
+	EngineOnly bool
 	EnvChoices int
 	KnownAs string
 	state   *State
@@ -130,6 +131,7 @@ type Engine struct {
 type Witness struct {
 	Inputs []ReplayVal
 	Multi  bool
+	EngineOnly bool
 	Sched  []string
 }
 
